@@ -6,11 +6,13 @@
 out=${1:-/tmp/apalache_linker.$$}; mkdir -p "$out"; here=$(cd "$(dirname "$0")/.." && pwd)
 cp "$here"/spec/LinkerInd.tla "$here"/spec/MC_LinkerInd.tla "$here"/spec/MC_LinkerIndTLC.tla "$out"/ || exit 2
 cd "$out" || exit 2
+# LINKER_N: number of modules for the symbolic steps (default 6, as written in the module; the six unrolled closure rounds are exact for any N <= 6)
+n=${LINKER_N:-6}; sed -i "s/^N == 6\$/N == $n/" LinkerInd.tla; grep -q "^N == $n\$" LinkerInd.tla || exit 2
 t=${APALACHE_TIMEOUT:-3000}
 (timeout $t apalache-mc check --init=ApaInit --inv=IndInv --length=0 --out-dir="$out/a" MC_LinkerInd.tla > a.log 2>&1; echo $? > a.rc) &
 (timeout $t apalache-mc check --init=IndInit --inv=IndInv --length=1 --out-dir="$out/b" MC_LinkerInd.tla > b.log 2>&1; echo $? > b.rc) &
 (timeout $t apalache-mc check --init=IndInit --inv=Props --length=0 --out-dir="$out/c" MC_LinkerInd.tla > c.log 2>&1; echo $? > c.rc) &
-mkdir -p tlc && sed 's/^N == 6$/N == 3/; s/Grow(Grow(Grow(Grow(Grow(Grow(Range(order)))))))/Grow(Grow(Grow(Range(order))))/' LinkerInd.tla > tlc/LinkerInd.tla && cp MC_LinkerIndTLC.tla tlc/
+mkdir -p tlc && sed "s/^N == $n\$/N == 3/;"' s/XX//; s/Grow(Grow(Grow(Grow(Grow(Grow(Range(order)))))))/Grow(Grow(Grow(Range(order))))/' LinkerInd.tla > tlc/LinkerInd.tla && cp MC_LinkerIndTLC.tla tlc/
 printf 'SPECIFICATION TLCSpec\nINVARIANT IndInv\nINVARIANT Props\nCHECK_DEADLOCK FALSE\n' > tlc/t.cfg
 (cd tlc && timeout 900 tlc -workers 4 -metadir "$out/tlc/m" -noGenerateSpecTE -config t.cfg MC_LinkerIndTLC.tla > ../t.log 2>&1; echo $? > ../t.rc)
 wait
